@@ -259,8 +259,14 @@ where
                             }
                         }
                     } else {
-                        if !self.contains(&item) {
-                            //will do either binary or linear search
+                        let found = if self.sorted {
+                            //binary search only holds for the part that was sorted, the new items follow it
+                            self.array[..sortedlen].binary_search(&item).is_ok()
+                                || self.array[sortedlen..].contains(&item)
+                        } else {
+                            self.contains(&item) //linear search
+                        };
+                        if !found {
                             updated = true;
                             self.add_unchecked(item);
                         }
